@@ -201,10 +201,25 @@ def lane_matrix(prop, tier, seed, jobs, params):
     rc, so, se = _run(out)
     if rc != 0:
         return dict(lane=lane, violations=[], inconclusive=["matrix exited %s: %s" % (rc, se[-400:])])
-    violations, samples = [], []
+    violations, samples, inconclusive = [], [], []
     n, strict, interesting = 0, 0, 0
     for line in so.splitlines():
         parts = line.split("|")
+        if len(parts) == 4 and parts[0] in ("OWNED", "KEY"):
+            kind, ty, expected, actual = parts
+            n += 1
+            expected, actual = expected == "true", actual == "true"
+            if not expected:
+                interesting += 1
+            props = ("C15", "C07") if kind == "OWNED" else ("C14",)
+            if actual and not expected and prop in props:
+                what = ("%s implements OwnedLockable although it does not own its locks: the constructors that skip the duplicate check accept it" % ty) if kind == "OWNED" \
+                    else ("%s implements Keyable: a value that is not the thread's unique key is accepted as a key" % ty)
+                violations.append(dict(prop=prop, rule="marker_trait_too_permissive", detail=what,
+                                       signature="%s:matrix:%s:%s" % (prop, kind, ty), case="corpus/C15_matrix/matrix.rs", index=n, log=[]))
+            elif expected and not actual:
+                inconclusive.append("matrix: %s no longer implements %s (API regression, not a property violation)" % (ty, "OwnedLockable" if kind == "OWNED" else "Keyable"))
+            continue
         if len(parts) != 5:
             continue
         ty, payload, trait, hl, std = parts
@@ -212,7 +227,7 @@ def lane_matrix(prop, tier, seed, jobs, params):
         hl, std = hl == "true", std == "true"
         if not std:
             interesting += 1
-        if hl and not std:
+        if hl and not std and prop == "C15":
             violations.append(dict(prop=prop, rule="auto_trait_weaker_than_std",
                                    detail="%s with payload %s implements %s, but the std analogue does not" % (ty, payload, trait),
                                    signature="%s:matrix:%s:%s:%s" % (prop, ty, payload, trait), case="corpus/C15_matrix/matrix.rs", index=n, log=[]))
@@ -220,6 +235,6 @@ def lane_matrix(prop, tier, seed, jobs, params):
             strict += 1
         if len(samples) < 4 and not std and n % 7 == 0:
             samples.append(dict(type=ty, payload=payload, trait=trait, happylock=hl, std=std))
-    return dict(lane=lane, evaluations=n, distinct_nontrivial=interesting, samples=samples, violations=violations, inconclusive=[],
+    return dict(lane=lane, evaluations=n, distinct_nontrivial=interesting, samples=samples, violations=violations, inconclusive=inconclusive,
                 counters=dict(probes=n, std_says_no=interesting, happylock_stricter_than_std=strict), wall_s=round(time.time() - t0, 2),
-                rule="auto-trait matrix: for payloads Rc (neither), Cell (Send only), a Sync+!Send type and i32, Send/Sync of every lock, guard, ref and collection type is evaluated at run time by autoref specialisation next to its std analogue (std::sync::Mutex/RwLock, their guards, tuples/references/boxes of them); violation iff happylock says yes where std says no; non-trivial = probes where std says no")
+                rule="auto-trait matrix: for payloads Rc (neither), Cell (Send only), a Sync+!Send type and i32, Send/Sync of every lock, guard, ref and collection type is evaluated at run time by autoref specialisation next to its std analogue (std::sync::Mutex/RwLock, their guards, tuples/references/boxes of them); violation iff happylock says yes where std says no; plus marker-trait probes: which types implement OwnedLockable (gate of the constructors that skip the duplicate check) and Keyable (what is accepted as a key) against an expected table; non-trivial = probes whose expected answer is no")
